@@ -7,6 +7,7 @@ import (
 	"sync/atomic"
 	"testing"
 	"testing/synctest"
+	"verifharness/model"
 
 	"github.com/samber/ro"
 	"pgregory.net/rapid"
@@ -222,5 +223,242 @@ func TestC03_AsyncOuterRelease(t *testing.T) {
 		c := c03AsyncCase{Op: op, K: k, Arrivals: as, CutAt: rapid.IntRange(0, len(as)).Draw(rt_, "cut")}
 		c03AsyncRun(rt_, t, c)
 		rt.Case(caseKey("asyncouter", op, k, arrivalsString(as), c.CutAt), c.CutAt > 0, "async-outer:"+op, func() any { return c })
+	})
+}
+
+// ---- MergeAll / MergeMap over a LIVE outer observable -----------------------------------
+// Inner observables arrive over time, interleaved with the notifications of the
+// inners already running; after every step each inner source is held exactly when
+// the definition says, and after the cut (Unsubscribe, or an early-terminating
+// downstream) none is.
+
+type c03Dyn struct {
+	Op    string  `json:"op"`    // MergeAll | MergeMap | MergeMapI
+	K     int     `json:"k"`     // number of inner sources
+	Steps []dynEv `json:"steps"` // outer / inner events
+	Take  int     `json:"take"`  // >0: Take(n) downstream instead of a final Unsubscribe
+}
+
+type dynEv struct {
+	Src int   `json:"src"` // -1: the outer observable; i >= 0: inner i
+	Ev  rt.Ev `json:"ev"`  // outer: N(i) = "emit inner i", C, E; inner: N v, C, E
+}
+
+func (e dynEv) String() string {
+	if e.Src < 0 {
+		return "outer:" + e.Ev.String()
+	}
+	return fmt.Sprintf("S%d:%s", e.Src, e.Ev.String())
+}
+
+func init() {
+	replayers["dynamic-outer"] = func(t *testing.T, raw json.RawMessage) {
+		var c c03Dyn
+		if err := json.Unmarshal(raw, &c); err != nil {
+			t.Fatal(err)
+		}
+		c03DynRun(t, c)
+	}
+}
+
+func c03DynRun(t rt.TB, c c03Dyn) {
+	fail := func(class, msg string) {
+		rt.Report(t, rt.Failure{Property: "C03", Check: "dynamic-outer", Op: c.Op, Class: class, Msg: msg, Case: c})
+	}
+	rt.NewSink()
+	srcs := make([]*rt.ManualSrc, c.K)
+	for i := range srcs {
+		srcs[i] = rt.NewManual(fmt.Sprintf("S%d", i), rt.CtorUnsafeCtx)
+	}
+	outerLive := 0
+	var pushInner func(i int)
+	var outerEnd func(k byte)
+	var obs ro.Observable[int]
+	switch c.Op {
+	case "MergeAll":
+		var od ro.Observer[ro.Observable[int]]
+		outer := ro.NewUnsafeObservable(func(d ro.Observer[ro.Observable[int]]) ro.Teardown {
+			od = d
+			outerLive++
+			return func() { outerLive-- }
+		})
+		obs = ro.MergeAll[int]()(outer)
+		pushInner = func(i int) { od.Next(srcs[i].Observable()) }
+		outerEnd = func(k byte) {
+			if k == 'C' {
+				od.Complete()
+			} else {
+				od.Error(rt.Err(9))
+			}
+		}
+	default:
+		var od ro.Observer[int]
+		outer := ro.NewUnsafeObservable(func(d ro.Observer[int]) ro.Teardown {
+			od = d
+			outerLive++
+			return func() { outerLive-- }
+		})
+		if c.Op == "MergeMap" {
+			obs = ro.MergeMap(func(i int) ro.Observable[int] { return srcs[i].Observable() })(outer)
+		} else {
+			obs = ro.MergeMapI(func(i int, _ int64) ro.Observable[int] { return srcs[i].Observable() })(outer)
+		}
+		pushInner = func(i int) { od.Next(i) }
+		outerEnd = func(k byte) {
+			if k == 'C' {
+				od.Complete()
+			} else {
+				od.Error(rt.Err(9))
+			}
+		}
+	}
+	if c.Take > 0 {
+		obs = ro.Take[int](int64(c.Take))(obs)
+	}
+	rec := rt.NewRecorder[int]()
+	sub := obs.Subscribe(rec)
+	// model
+	subscribed := make([]bool, c.K)
+	done := make([]bool, c.K)
+	outerDone, ended := false, false
+	var want model.Trace
+	finish := func(k byte, e string) {
+		if !ended {
+			ended = true
+			want.End, want.Err = k, e
+		}
+	}
+	maybeComplete := func() {
+		if !outerDone {
+			return
+		}
+		for i := range subscribed {
+			if subscribed[i] && !done[i] {
+				return
+			}
+		}
+		finish('C', "")
+	}
+	emitted := 0
+	check := func(where string) bool {
+		got := cat.TraceOf(rec.Trace())
+		if !cat.SameTrace(got, want) {
+			fail("wrong-output", fmt.Sprintf("%s: output %s, the definition assigns %s", where, got, want))
+			return false
+		}
+		for i, s := range srcs {
+			wantLive := 0
+			if subscribed[i] && !done[i] && !ended {
+				wantLive = 1
+			}
+			if s.LiveDests() != wantLive {
+				class := "source-not-released"
+				if s.LiveDests() < wantLive {
+					class = "source-released-too-early"
+				}
+				fail(class, fmt.Sprintf("%s: inner source %d has %d live subscriptions, the definition says %d", where, i, s.LiveDests(), wantLive))
+				return false
+			}
+		}
+		if ended && outerLive != 0 {
+			fail("source-not-released", where+": the output has ended, the outer observable is still subscribed")
+			return false
+		}
+		return true
+	}
+	ok := check(c.Op + " right after Subscribe")
+	for n, st := range c.Steps {
+		if !ok {
+			break
+		}
+		switch {
+		case st.Src < 0 && st.Ev.K == 'N':
+			i := st.Ev.V
+			if !ended && !outerDone && i < c.K && !subscribed[i] {
+				subscribed[i] = true
+				pushInner(i)
+			} else {
+				continue
+			}
+		case st.Src < 0:
+			if ended || outerDone {
+				continue
+			}
+			outerEnd(st.Ev.K)
+			if st.Ev.K == 'C' {
+				outerDone = true
+				maybeComplete()
+			} else {
+				outerDone = true
+				finish('E', "e9")
+			}
+		default:
+			i := st.Src
+			srcs[i].Emit(st.Ev)
+			if !subscribed[i] || done[i] || ended {
+				break
+			}
+			switch st.Ev.K {
+			case 'N':
+				want.Vals = append(want.Vals, st.Ev.V)
+				emitted++
+				if c.Take > 0 && emitted == c.Take {
+					finish('C', "")
+				}
+			case 'C':
+				done[i] = true
+				maybeComplete()
+			case 'E':
+				done[i] = true
+				finish('E', fmt.Sprintf("e%d", st.Ev.V))
+			}
+		}
+		var sb []string
+		for _, x := range c.Steps[:n+1] {
+			sb = append(sb, x.String())
+		}
+		ok = check(fmt.Sprintf("%s(take=%d) over a live outer observable after [%s]", c.Op, c.Take, strings.Join(sb, " ")))
+	}
+	sub.Unsubscribe()
+	if ok {
+		for i, s := range srcs {
+			if s.LiveDests() != 0 {
+				fail("source-not-released-after-unsubscribe", fmt.Sprintf("%s over a live outer observable, steps %v, then Unsubscribe: inner source %d is still subscribed", c.Op, c.Steps, i))
+				break
+			}
+		}
+		if outerLive != 0 {
+			fail("source-not-released-after-unsubscribe", fmt.Sprintf("%s: the outer observable is still subscribed after Unsubscribe", c.Op))
+		}
+	}
+}
+
+func TestC03_DynamicOuterMerge(t *testing.T) {
+	rapid.Check(t, func(t *rapid.T) {
+		c := c03Dyn{Op: rapid.SampledFrom([]string{"MergeAll", "MergeMap", "MergeMapI"}).Draw(t, "op"), K: rapid.IntRange(2, 4).Draw(t, "k")}
+		if rapid.IntRange(0, 3).Draw(t, "withTake") == 0 {
+			c.Take = rapid.IntRange(1, 4).Draw(t, "take")
+		}
+		n := rapid.IntRange(2, 12).Draw(t, "steps")
+		nextInner := 0
+		for i := 0; i < n; i++ {
+			switch rapid.IntRange(0, 9).Draw(t, "kind") {
+			case 0, 1, 2:
+				if nextInner < c.K {
+					c.Steps = append(c.Steps, dynEv{Src: -1, Ev: rt.N(nextInner)})
+					nextInner++
+				}
+			case 3:
+				if rapid.IntRange(0, 2).Draw(t, "outerEnd") == 0 {
+					c.Steps = append(c.Steps, dynEv{Src: -1, Ev: rapid.SampledFrom([]rt.Ev{rt.C(), rt.C(), rt.E(9)}).Draw(t, "end")})
+				}
+			default:
+				src := rapid.IntRange(0, c.K-1).Draw(t, "inner")
+				ev := rapid.SampledFrom([]rt.Ev{rt.N(10*src + i%7 + 1), rt.N(10*src + i%7 + 1), rt.N(10*src + i%7 + 1), rt.C(), rt.E(src + 1)}).Draw(t, "ev")
+				c.Steps = append(c.Steps, dynEv{Src: src, Ev: ev})
+			}
+		}
+		c03DynRun(t, c)
+		rt.Case(caseKey("dynouter", c.Op, c.K, fmt.Sprint(c.Steps), c.Take), nextInner >= 2, "dynamic-outer:"+c.Op, func() any { return c })
 	})
 }
